@@ -223,6 +223,71 @@ func c13Menu() []c13op {
 			}, none
 		})
 	}
+	add("empty MultiExp, then the caller updates the returned element in place", func(c *ipa.IPAConfig, seed int64) ([]interface{}, func() string, func() string) {
+		return []interface{}{}, func() string {
+			var acc banderwagon.Element
+			out, err := acc.MultiExp(nil, nil, banderwagon.MultiExpConfig{NbTasks: 2, ScalarsMont: true})
+			if err != nil || out == nil {
+				return dg(err)
+			}
+			out.Add(out, &c.SRS[7]) // the result belongs to the caller
+			var p banderwagon.Element
+			p, err = ipa.MultiScalar(nil, nil)
+			p.Add(&p, &c.SRS[8])
+			return dg(out.Bytes(), p.Bytes(), err)
+		}, none
+	})
+	add("CreateMultiProof twice over the same, partly pre-normalised commitment objects", func(c *ipa.IPAConfig, seed int64) ([]interface{}, func() string, func() string) {
+		fs := [][]fr.Element{polyF(seed, 10), polyF(seed, 12), polyF(seed, 13)}
+		Cs := make([]*banderwagon.Element, 3)
+		before := make([]banderwagon.Element, 3)
+		for i := range fs {
+			e := c.Commit(fs[i])
+			if i == 1 {
+				e.Normalize() // already affine
+			}
+			Cs[i] = &e
+			before[i] = e
+		}
+		zs := []uint8{4, 4, 250}
+		return []interface{}{&fs, &zs}, func() string {
+				p1, err1 := multiproof.CreateMultiProof(common.NewTranscript("vt"), c, Cs, fs, zs)
+				p2, err2 := multiproof.CreateMultiProof(common.NewTranscript("vt"), c, Cs, fs, zs)
+				if err1 != nil || err2 != nil {
+					return dg(err1, err2)
+				}
+				return dg(hx(proofBytes(p1)), hx(proofBytes(p2)))
+			}, func() string {
+				for i := range Cs {
+					if !Cs[i].Equal(&before[i]) || Cs[i].Bytes() != before[i].Bytes() || !Cs[i].IsOnCurve() {
+						return fmt.Sprintf("commitment %d changed its value", i)
+					}
+				}
+				return ""
+			}
+	})
+	add("proof Write to a failing writer, then to a healthy one", func(c *ipa.IPAConfig, seed int64) ([]interface{}, func() string, func() string) {
+		hb := honestProofBytes(seed, 0)
+		var p multiproof.MultiProof
+		if err := p.Read(bytes.NewReader(hb)); err != nil {
+			panic(err)
+		}
+		healthy := ""
+		return []interface{}{&p}, func() string {
+				e1 := p.Write(&failWriter{failAt: 100})
+				e2 := p.Write(&failWriter{failAt: 0})
+				e3 := p.IPA.Write(&failWriter{failAt: 543, short: true})
+				w := &failWriter{failAt: -1}
+				e4 := p.Write(w)
+				healthy = hx(w.buf.Bytes())
+				return dg(e1 != nil, e2 != nil, e3 != nil, e4, healthy)
+			}, func() string {
+				if healthy != hx(hb) {
+					return fmt.Sprintf("a Write after failed Writes produced %d bytes instead of the proof's 576", len(healthy)/2)
+				}
+				return ""
+			}
+	})
 	add("BatchNormalize / Normalize", func(c *ipa.IPAConfig, seed int64) ([]interface{}, func() string, func() string) {
 		a, b := reprOf(c.SRS[9], reprProj), reprOf(c.SRS[10], reprProjFlip)
 		list := []*banderwagon.Element{&a, &b, &a}
@@ -387,7 +452,7 @@ func c13Probe(c *ipa.IPAConfig, seed int64) string {
 func init() {
 	core.Register(&core.Check{
 		ID: "C13", Level: "model_checking",
-		Rule:   "explicit-state search on the fingerprint of everything shared and mutable (deep reflect/unsafe hash of the IPAConfig incl. all precomputed tables, and of every package-level variable: generator, identities, labels, moduli, sqrt tables ...): a menu of 27 API calls with fresh arguments is applied from every reachable state; after EVERY call the shared fingerprint must equal the initial one (on a pure tree the state space is one state with 27 self-loops and the search completes), every caller-supplied argument must be bit-identical to its pre-call deep copy up to slice capacity (commitments given to CreateMultiProof may only change representation), and each call's result digest must equal its result on a fresh process state; the same argument buffers refilled with different content must give the results of fresh arguments (nothing remembered per address); then ALL histories of depth 2 (3 thorough) over the menu with the same checks and a probe call at the end; a state is a distinct shared fingerprint, a transition one API call",
+		Rule:   "explicit-state search on the fingerprint of everything shared and mutable (deep reflect/unsafe hash of the IPAConfig incl. all precomputed tables, and of every package-level variable: generator, identities, labels, moduli, sqrt tables ...): a menu of 30 API calls with fresh arguments is applied from every reachable state; after EVERY call the shared fingerprint must equal the initial one (on a pure tree the state space is one state with 30 self-loops and the search completes), every caller-supplied argument must be bit-identical to its pre-call deep copy up to slice capacity (commitments given to CreateMultiProof may only change representation), and each call's result digest must equal its result on a fresh process state; the same argument buffers refilled with different content must give the results of fresh arguments (nothing remembered per address); then ALL histories of depth 2 (3 thorough) over the menu with the same checks and a probe call at the end; a state is a distinct shared fingerprint, a transition one API call",
 		Assume: []string{"the fingerprint covers memory reachable from the config and from the exported/unexported package variables of go-ipa (gnark-crypto internals are outside)", "result digests are deterministic functions of the inputs (established by C03)"},
 		Units:  c13Units,
 	})
